@@ -452,7 +452,8 @@ WHY = [("disentangled_std", "disentangled_std"), ("has to be a regressor", "not_
        ("n_estimtaors", "gbrt_n_estimators"), ("in1d", "numpy_in1d"), ("Gradient not implemented for MES", "mes_gradient"),
        ("not within the bounds", "tell_rejects_point"), ("Not all points are within the bounds", "tell_rejects_point"),
        ("Can only compute distance for values within", "point_outside_space"), ("scikit-garden", "missing_dependency"),
-       ("pvals", "boltzmann_nan")]  # + "forbidden_inactive_placeholder", decided in check_search
+       ("pvals", "boltzmann_nan"), ("object has no attribute 'ask'", "ask_before_search"), ("object has no attribute 'tell'", "ask_before_search"),
+       ("__overwritten_by_the_caller__", "aliased_initial_point")]  # + "forbidden_inactive_placeholder", decided in check_search
 
 
 def classify(msg):
@@ -478,6 +479,11 @@ def objective_fn(case, record):
             return float("nan") if i % 8 == 2 else float("-inf")
         if pat == "const":
             return 0.0
+        if pat == "moo":  # two objectives (the scalarisation path of the optimizer), now and then a failure
+            if i % 5 == 3:
+                return "F_moo"
+            v = math.atan(float(i % 7)) + sum(0.1 for x in job.parameters.values() if x)
+            return (v, -0.5 * v)
         # a deterministic objective of the position in the run and of the numeric values (any function will do)
         s = 0.0
         for v in job.parameters.values():
@@ -491,7 +497,7 @@ def objective_fn(case, record):
     return run
 
 
-def make_search(case, pb, evaluator, log_dir):
+def make_search(case, pb, evaluator, log_dir, initial_points=None):
     from deephyper.hpo import CBO, ExperimentalDesignSearch, RandomSearch, RegularizedEvolution
 
     cls = case["search"]
@@ -502,21 +508,65 @@ def make_search(case, pb, evaluator, log_dir):
                   acq_optimizer=case.get("acq_optimizer", "auto"), acq_optimizer_freq=case.get("acq_optimizer_freq", 10))
         if case.get("acq_optimizer", "auto") in ("ga", "mixedga"):
             kw["acq_optimizer_freq"] = 1
+        kw.update(case.get("options") or {})
+        if initial_points is not None:
+            kw["initial_points"] = initial_points
         return CBO(pb, evaluator, random_state=seed, log_dir=log_dir, verbose=0, **kw)
     if cls == "Random":
         return RandomSearch(pb, evaluator, random_state=seed, log_dir=log_dir, verbose=0)
     if cls == "RegEvo":
         return RegularizedEvolution(pb, evaluator, random_state=seed, log_dir=log_dir, verbose=0, population_size=case.get("pop", 6), sample_size=case.get("sample", 3))
     if cls == "EDS":
-        return ExperimentalDesignSearch(pb, evaluator, random_state=seed, log_dir=log_dir, verbose=0, n_points=case["evals"], design=case["design"])
+        return ExperimentalDesignSearch(pb, evaluator, random_state=seed, log_dir=log_dir, verbose=0, n_points=case["evals"], design=case["design"],
+                                        initial_points=initial_points)
     raise ValueError(cls)
+
+
+def canonical_value(hp):
+    """the harness's own reading of the canonical inactive value (lower bound / first choice / value), for building caller's points"""
+    import ConfigSpace.hyperparameters as csh
+
+    if isinstance(hp, csh.NumericalHyperparameter):
+        return hp.lower
+    if isinstance(hp, csh.CategoricalHyperparameter):
+        return hp.choices[0]
+    if isinstance(hp, csh.OrdinalHyperparameter):
+        return hp.sequence[0]
+    return hp.value
+
+
+def caller_points(pb, k, seed, form):
+    """k valid full configurations of the problem (ConfigSpace sampling + canonical inactive values) in the form CBO accepts:
+    'dict' (any key order) or 'list' (hyperparameter_names order).  Returns (what is passed to the constructor, the dicts expected)."""
+    import copy
+
+    sp = copy.deepcopy(pb.space)
+    sp.seed(seed)
+    with warnings.catch_warnings():
+        warnings.simplefilter("ignore")
+        confs = sp.sample_configuration(k)
+    confs = confs if isinstance(confs, list) else [confs]
+    names = pb.hyperparameter_names
+    full = []
+    for c in confs:
+        d = dict(c)
+        full.append({n: (getattr(d[n], "tolist", lambda v=d[n]: v)() if n in d else canonical_value(pb.space[n])) for n in names})
+    if form == "list":
+        return [[d[n] for n in names] for d in full], full
+    return [{n: d[n] for n in sorted(d, reverse=True)} for d in full], full   # keys in another order than the problem's
+
+
+def same_config(a, b):
+    return sorted(a) == sorted(b) and all(pykind(a[n]) == pykind(b[n]) and a[n] == b[n] for n in a)
 
 
 def case_sig(case):
     acq = case.get("acq", "")
     return dict(search=case["search"], surrogate=case.get("surrogate", ""), acq=acq, acq_d=acq.endswith("d"), acq_mes=acq.startswith("MES"),
                 strategy=case.get("strategy", ""), design=case.get("design", ""), kind=case["problem"]["kind"],
-                acq_optimizer=case.get("acq_optimizer", "auto"), constrained=bool(case["problem"].get("conditions") or case["problem"].get("forbiddens")))
+                acq_optimizer=case.get("acq_optimizer", "auto"), constrained=bool(case["problem"].get("conditions") or case["problem"].get("forbiddens")),
+                api=bool(case.get("api")), ncalls=len(case.get("calls") or [1]), points=(case["points"]["form"] + ("+mutated" if case["points"].get("mutate_after") else "")) if case.get("points") else "none",
+                options=",".join(sorted((case.get("options") or {}).keys())))
 
 
 def check_search(case):
@@ -541,6 +591,16 @@ def check_search(case):
                  "pair=%s/%s" % (case["surrogate"], case["acq"]), "pair=%s/%s" % (case["surrogate"], case["strategy"])]
         if sig["acq_optimizer"] != "auto":
             desc.append("acq_optimizer=%s" % sig["acq_optimizer"])
+    if case.get("api"):
+        desc.append("entry=ask/tell")
+    if case.get("calls"):
+        desc.append("search_calls=%d" % len(case["calls"]))
+    if case.get("points"):
+        desc.append("initial_points=%s%s" % (case["points"]["form"], "+mutated" if case["points"].get("mutate_after") else ""))
+    for k in sorted((case.get("options") or {}).keys()):
+        desc.append("option=%s" % k)
+    if case.get("reuse_problem"):
+        desc.append("problem_reused")
     res = dict(ok=True, kind="oracle", clause="", sig=sig, nontrivial=False, desc=desc)
     pb = build_problem(case["problem"])
     record = []
@@ -551,8 +611,43 @@ def check_search(case):
         warnings.simplefilter("ignore")
         evaluator = Evaluator.create(objective_fn(case, record), method="serial", method_kwargs=dict(num_workers=case["workers"]))
         try:
-            search = make_search(case, pb, evaluator, tmp)
-            search.search(max_evals=case["evals"])
+            if case.get("reuse_problem"):
+                # one HpProblem (one ConfigurationSpace object, seeded by every search that uses it) serves another search first
+                from deephyper.hpo import RandomSearch
+
+                RandomSearch(pb, evaluator, random_state=case["seed"] + 1, log_dir=tmp, verbose=0).search(max_evals=case["reuse_problem"])
+            given, expected = None, []
+            if case.get("points"):
+                given, expected = caller_points(pb, case["points"]["k"], case["seed"], case["points"]["form"])
+            search = make_search(case, pb, evaluator, tmp, initial_points=given)
+            if given is not None and case["points"].get("mutate_after"):
+                # the caller goes on using (here: overwriting) the objects it handed over
+                for pt in given:
+                    if isinstance(pt, dict):
+                        for n in list(pt):
+                            pt[n] = "__overwritten_by_the_caller__"
+                    else:
+                        pt[:] = ["__overwritten_by_the_caller__"] * len(pt)
+            if case.get("api"):
+                # the public ask / tell interface, driven by the caller instead of search()
+                run = objective_fn(case, record)
+                done = 0
+                while done < case["evals"]:
+                    cfgs = search.ask(case["workers"])
+                    told = []
+                    for cfg in cfgs:
+                        class _J:  # what the run-function reads
+                            parameters = cfg
+                        import asyncio
+
+                        told.append((dict(cfg), asyncio.run(run(_J))))
+                    done += len(cfgs)
+                    search.tell(told)
+                    if not cfgs:
+                        break
+            else:
+                for k in (case.get("calls") or [case["evals"]]):   # one search object, several search() calls
+                    search.search(max_evals=k)
         except Exception as e:
             err = e
         finally:
@@ -587,8 +682,18 @@ def check_search(case):
             clause = CLAUSES.get(code, "clause%d" % code)
             return dict(res, ok=False, clause=clause, sig=dict(sig, clause=clause), nontrivial=True,
                         detail=dict(index=i, config=repr(cfg), phase="initial" if i < case.get("n_init", 0) else "model", **det))
-    if len(record) < case["evals"]:
+    need = (case.get("calls") or [case["evals"]])[0] + int(case.get("reuse_problem") or 0)
+    if len(record) < need:
         return dict(res, ok=False, clause="too_few_evaluations", sig=dict(sig, clause="too_few_evaluations"), detail=dict(evaluated=len(record)))
+    if case.get("points"):
+        off = int(case.get("reuse_problem") or 0)
+        got = record[off:off + len(expected)]
+        if len(got) != len(expected) or not all(same_config(a, b) for a, b in zip(got, expected)):
+            return dict(res, ok=False, kind="corr", clause="initial_points_provenance", sig=dict(sig, clause="initial_points_provenance"),
+                        detail=dict(expected=repr(expected), got=repr(got)))
+    if case["search"] in ("CBO", "EDS") and getattr(search, "_opt", None) is None:
+        # fail closed: the optimizer-level judgement below must not be skipped silently
+        return dict(res, ok=False, kind="corr", clause="optimizer_not_observable", sig=dict(sig, clause="optimizer_not_observable"))
     if sig["constrained"]:
         desc.append("inactive_after_initial_phase=%s" % ("0" if n_inactive_model == 0 else "1-3" if n_inactive_model <= 3 else "4+"))
         desc.append("forbidden_clauses=%d" % len(case["problem"].get("forbiddens", [])))
@@ -686,6 +791,21 @@ def gen_problem(rng, kind):
         ks = ks[: rng.randint(3, 6)]
         hps = [gen_hp(rng, k, "%s%d" % (k[0], j)) for j, k in enumerate(ks)]
     return dict(kind=kind, hps=hps)
+
+
+def gen_edge_problem(rng):
+    """numeric edge values and falsy values in legal places: integer ranges past 2^53 / up to 2^62, a float range starting at 0.0, the
+    values 0 / 0.0 / False / '' as bounds, choices and constants"""
+    hps = [dict(kind="int", name="big", lo=0, hi=2 ** 62),
+           dict(kind="int", name="past53", lo=2 ** 53 + 1, hi=2 ** 53 + rng.choice([3, 9, 1000])),
+           dict(kind="int", name="neg", lo=-(2 ** 47), hi=0),
+           dict(kind="float", name="zero", lo=0.0, hi=rng.choice([1e-3, 1.0, 7.5])),
+           dict(kind="cat", name="flag", choices=rng.choice([[False, True], [True, False]])),
+           dict(kind="cat", name="empty", choices=["", "a", " "]),
+           dict(kind="ord", name="zo", choices=rng.choice([[0, 1, 2], [0.0, 0.5], [-1, 0]])),
+           dict(kind="const", name="k0", value=rng.choice([0, 0.0, ""]))]
+    rng.shuffle(hps)
+    return dict(kind="edge", hps=hps[: rng.randint(4, 8)])
 
 
 def gen_constrained(rng):
@@ -827,13 +947,13 @@ def gen_search(quick_n, thorough_seeds=2):
                               seed=rng.randint(0, 2 ** 20), evals=rng.randint(12, 20), n_init=rng.randint(3, 6), n_points=200))
         # conditional children that do not round-trip exactly (log-uniform floats with inexact lower bounds, ...): tree surrogates, enough
         # model-based proposals with the children inactive (the objective favours the deactivating parent value)
-        nk = 8 if tier == "quick" else 3 if tier == "search" else 48
+        nk = 6 if tier == "quick" else 3 if tier == "search" else 48
         for i in range(nk):
             pbd, favor = gen_conditional_children(rng)
             cases.append(dict(search="CBO", surrogate=["ET", "RF", "ET", "TB"][i % 4], acq=rng.choice(["UCB", "UCBd", "EI", "gp_hedge"]),
                               strategy=["cl_max", "topk", "qUCB", "boltzmann", "cl_min", "cl_mean", "qUCBd", "cl_max"][i % 8],
                               design="random", problem=pbd, favor=favor, fail=rng.choice(["none", "none", "some"]), workers=[1, 3, 2, 4][i % 4],
-                              seed=rng.randint(0, 2 ** 20), evals=rng.randint(24, 32), n_init=rng.randint(4, 6), n_points=200))
+                              seed=rng.randint(0, 2 ** 20), evals=rng.randint(20, 26), n_init=rng.randint(4, 5), n_points=200))
         # forbidden clauses over childless hyperparameters / mixed with conditions: evolution phase of RegularizedEvolution (small
         # population, many cheap evaluations), RandomSearch, CBO
         nf = 6 if tier == "quick" else 2 if tier == "search" else 40
@@ -846,6 +966,46 @@ def gen_search(quick_n, thorough_seeds=2):
                 cases.append(dict(search="Random", problem=pbd, favor=favor, fail="none", workers=rng.choice([1, 4]), seed=rng.randint(0, 2 ** 20), evals=rng.randint(60, 100)))
                 cases.append(dict(search="CBO", surrogate=rng.choice(["ET", "RF"]), acq="UCB", strategy=rng.choice(["cl_max", "qUCB", "topk"]), design="random",
                                   problem=pbd, favor=favor, fail="none", workers=2, seed=rng.randint(0, 2 ** 20), evals=24, n_init=5, n_points=200))
+        # blind-spot sweep: several search() calls on one object, one problem serving two searches, the public ask / tell entry point,
+        # caller's initial points (both forms, overwritten by the caller afterwards), non-default constructor options, two objectives,
+        # numeric edge / falsy values
+        nsw = 12 if tier == "quick" else 6 if tier == "search" else 96
+        for i in range(nsw):
+            fam = i % 12
+            sur = ["ET", "RF", "GP", "DUMMY"][(i // 12 + fam) % 4]
+            pbd = gen_edge_problem(rng) if fam in (9, 10) else gen_conditional_children(rng)[0] if fam in (0, 4) and sur != "GP" else gen_problem(rng, rng.choice(["mixed", "float", "ordnum", "int", "cat"]))
+            c = dict(search="CBO", surrogate=sur, acq=rng.choice(["UCB", "UCBd", "EI", "PI", "gp_hedge"]), strategy=rng.choice(opts["strategies"]), design="random",
+                     problem=pbd, fail=rng.choice(["none", "none", "some", "const"]), workers=rng.choice([1, 2, 3]), seed=rng.randint(0, 2 ** 20),
+                     evals=rng.randint(12, 18), n_init=rng.randint(3, 5), n_points=200)
+            if fam == 0:
+                c.update(calls=[rng.randint(5, 8), rng.randint(4, 8), rng.randint(3, 6)], reuse_problem=rng.choice([0, 4]))
+            elif fam == 1:
+                c = dict(search=rng.choice(["RegEvo", "Random"]), problem=gen_forbidden(rng, mixed=True)[0], fail="none", workers=2, seed=c["seed"],
+                         evals=12, pop=5, sample=2, calls=[12, 14, 12], reuse_problem=3)
+            elif fam == 2:
+                c.update(api=True)
+            elif fam == 3:
+                c = dict(search=["RegEvo", "Random"][(i // 12) % 2], problem=gen_forbidden(rng, mixed=bool(i % 2))[0], fail="some", workers=3, seed=c["seed"],
+                         evals=30, pop=5, sample=2, api=True)
+            elif fam == 4:
+                c.update(points=dict(k=rng.randint(2, 4), form="dict", mutate_after=True), n_init=5)
+            elif fam == 5:
+                c.update(points=dict(k=rng.randint(2, 4), form="list", mutate_after=True), n_init=5, design=rng.choice(["random", "lhs", "sobol"]))
+            elif fam == 6:   # (n_jobs > 1 with the GP surrogate starts worker processes at every fit: tens of seconds; trees only)
+                c.update(options=dict(n_jobs=2, update_prior=True), surrogate=rng.choice(["ET", "RF"]), workers=1, strategy="qUCB", evals=12)
+            elif fam == 7:
+                c.update(options=dict(filter_duplicated=False, objective_scaler=rng.choice(["minmax", "identity", "quantile-uniform"]),
+                                      scheduler={"type": "periodic-exp-decay", "period": 5, "rate": 0.1}, kappa=rng.choice([0.0, 10.0]), xi=0.0))
+            elif fam == 8:
+                c.update(fail="moo", options=dict(moo_scalarization_strategy=rng.choice(["Chebyshev", "Linear", "PBI"])))
+            elif fam == 9:
+                c.update(design=rng.choice(opts["designs"]))
+            elif fam == 10:
+                c = dict(search="EDS", design=rng.choice(opts["designs"]), problem=pbd, fail="none", workers=2, seed=c["seed"], evals=12,
+                         points=dict(k=2, form="dict", mutate_after=False))
+            elif fam == 11:
+                c.update(options=dict(acq_optimizer_freq=1, n_jobs=2), design=rng.choice(["lhs", "grid"]), calls=[7, 6], surrogate=rng.choice(["ET", "DUMMY"]), workers=1)
+            cases.append(c)
         # the other search classes
         no = 2 if tier == "quick" else 1 if tier == "search" else 14
         for i in range(no):
